@@ -392,18 +392,22 @@ func (e *env) bind(kind int) int {
 		case qPersist:
 			ad := newRecAdapter(false, len(e.adapters))
 			e.adapters = append(e.adapters, ad)
+			vt.Mark("ad:binding", ad, "") // the next Manager.Register by this thread is this adapter's
 			q = qPers{e.wPlain.WithPersistentQueue(ad)}
 		case qPersistPrio:
 			ad := newRecAdapter(true, len(e.adapters))
 			e.adapters = append(e.adapters, ad)
+			vt.Mark("ad:binding", ad, "") // the next Manager.Register by this thread is this adapter's
 			q = qPersP{e.wPlain.WithPersistentPriorityQueue(adPrio{ad})}
 		case qDist:
 			ad := newRecAdapter(false, len(e.adapters))
 			e.adapters = append(e.adapters, ad)
+			vt.Mark("ad:binding", ad, "") // the next Manager.Register by this thread is this adapter's
 			q = qDistQ{e.wPlain.WithDistributedQueue(ad)}
 		case qDistPrio:
 			ad := newRecAdapter(true, len(e.adapters))
 			e.adapters = append(e.adapters, ad)
+			vt.Mark("ad:binding", ad, "") // the next Manager.Register by this thread is this adapter's
 			q = qDistP{e.wPlain.WithDistributedPriorityQueue(adPrio{ad})}
 		}
 	case kErr:
